@@ -252,6 +252,10 @@ func (af *AdaptationField) stuffAF() {
 // delta is how much shifting needs to be done.
 // this function must be called before the field is marked as present.
 func (af *AdaptationField) resizeAF(start int, delta int) error {
+	if af.stuffingStart() > PacketSize || start > af.stuffingStart() || start-delta > af.stuffingStart() {
+		// the flags and length bytes announce more content than the packet holds
+		return gots.ErrAdaptationFieldTooLarge
+	}
 	if delta > 0 { // shifting for growing
 		end := af.stuffingStart()
 		startRight := start + delta
@@ -542,6 +546,9 @@ func (af *AdaptationField) TransportPrivateData() ([]byte, error) {
 	if !hasTPD {
 		return nil, gots.ErrNoPrivateTransportData
 	}
+	if af.adaptationExtensionStart() > PacketSize {
+		return nil, gots.ErrAdaptationFieldTooLarge
+	}
 	return af[af.transportPrivateDataStart():af.adaptationExtensionStart()], nil
 }
 
@@ -608,6 +615,9 @@ func (af *AdaptationField) AdaptationFieldExtension() ([]byte, error) {
 	}
 	if !hasAFC {
 		return nil, gots.ErrNoAdaptationFieldExtension
+	}
+	if af.stuffingStart() > PacketSize {
+		return nil, gots.ErrAdaptationFieldTooLarge
 	}
 	return af[af.adaptationExtensionStart():af.stuffingStart()], nil
 }
